@@ -9,7 +9,7 @@ from svcgen import *
 
 def c16(ck):
     rng = random.Random(ck.seed)
-    quick = ck.tier == "quick"
+    quick = ck.quick
     ref = regenerate(["AddrGen.v", "WireGen.v"])
     for n, msg in ref:
         ck.tie_broken.append("translator refused %s: %s" % (n, msg))
